@@ -998,7 +998,7 @@ def tree_to_polars(
                 _recursive_append(_node)
 
     _recursive_append(tree)
-    return pl.DataFrame(data_list)
+    return pl.DataFrame(data_list, infer_schema_length=None)
 
 
 def tree_to_dict(
